@@ -21,6 +21,7 @@ RULES = {
     'C09.R3': 'flag vocabulary: -f, -na (int), -twopl, -bf, -stab, -pc exist in the solver with the documented arity',
     'C09.R5': 'a file the generator can write is never rejected by the reader: no raise on an empty second-side list',
     'C09.R6': 'the loaded instance is solved by a model whose constraints are the definition of a valid matching (C01.R1-R3 re-evaluated on the current tree)',
+    'C09.R7': 'ties written by the generator are the ties the solver reads: product of the tie writer and the tie reader tables (C13.R1-R3 re-evaluated on the current tree)',
     'C09.R4': 'rank look-up totality: with -twopl the reader looks up (lecturer, student) for every pair; those keys are exactly the ones the generator writes (C12); numeric fields are written as integers',
 }
 
@@ -159,6 +160,28 @@ def run(rep, repo, tier):
             r = lpfacts.get_run(repo, pc, stab, [])
             c01.check_run(prox, r, pc, stab, [])
     c01.check_grouping(prox, repo, rule='C09.R6')
+    # C09.R7: tie writer x tie reader (same tables and exploration as C13)
+    from . import c13
+    from .. import transducer as T_
+    prox7 = RuleProxy(rep, 'C09.R7')
+    try:
+        wf_, fw_, _ = c13.find_writer(repo)
+        rf_ = c13.find_reader(repo)
+        wt_ = T_.WriterTable(wf_, resolver=c13.helper_resolver(repo, repo.rel('generator')))
+        decs_ = sorted({v[1] for v in wt_.table.values() if v[0] != 'BAD'})
+        rt_ = T_.ReaderTable(rf_, decs_, resolver=c13.helper_resolver(repo, repo.rel('solver')))
+        viol_, stats_ = T_.explore(wt_.table, wt_.init, rt_)
+        seen_ = set()
+        for kind, msg, tr in viol_:
+            if (kind, msg) in seen_:
+                continue
+            seen_.add((kind, msg))
+            prox7.fail('C09.R7', (wf_ if kind == 'writer' else rf_).where, 'the solver reads the tie groups the generator wrote', got='%s: %s  [after: %s]' % (kind, msg, c13.fmt_trace(tr)),
+                       construct='%s: %s' % (kind, msg))
+        if not viol_:
+            prox7.ok('C09.R7', rf_.where, 'tie writer x tie reader: %d product states, %d transitions, ranks agree with the written groups' % (stats_['product_states'], stats_['transitions']))
+    except (Unknown, AnalysisError) as u:
+        prox7.inconclusive('C09.R7', 'matchingproblems/solver/fileIO.py', 'tie writer and tie reader are inside the recognised fragment', got=str(u))
 
 
 class RuleProxy:
